@@ -244,10 +244,16 @@ static void small_product_case(uint64_t N, int fam, int native, unsigned rep) {
 
 static void svp_case(uint64_t N, int fam, int native, int tmp_a, uint64_t res_size, uint64_t a_size, unsigned aslc, unsigned rep) {
   char key[128];
-  snprintf(key, sizeof key, "svp_apply_dft+%s|%s,%s%s", tmp_a ? "idft_tmp_a" : "idft", famn[fam], res_size > a_size ? "res>a" : (res_size == a_size ? "res=a" : "res<a"), native ? "" : ",generic");
+  // tmp_a: 0 idft, 1 idft_tmp_a, 2 idft writing over its own input (res == a_dft);
+  // +4: the DFT vector has only min(a_size, res_size) rows, so the zero rows come from the inverse DFT, not from svp_apply_dft
+  const int short_dft = (tmp_a & 4) != 0;
+  tmp_a &= 3;
+  static const char* const idn[] = {"idft", "idft_tmp_a", "idft(res==a_dft)"};
+  snprintf(key, sizeof key, "svp_apply_dft+%s%s|%s,%s%s", idn[tmp_a], short_dft ? ",short-dft" : "", famn[fam], res_size > a_size ? "res>a" : (res_size == a_size ? "res=a" : "res<a"), native ? "" : ",generic");
   if (!case_begin(key, "N=%" PRIu64 " fam=%s disp=%s res=%" PRIu64 " a=%" PRIu64 " asl=%u rep=%u", N, famn[fam], native ? "native" : "generic", res_size, a_size, aslc, rep)) return;
   rng_t* r = crng();
   const MODULE* mod = get_module(N, FFT64, native);
+  const uint64_t dsize = short_dft ? (a_size < res_size ? a_size : res_size) : res_size;
   zvec_t A;
   zvec_alloc(&A, N, a_size, stride_choice(N, aslc), 8 * (rep % 8));
   gbuf_t gb, gp, gd, gbig, gt;
@@ -278,14 +284,17 @@ static void svp_case(uint64_t N, int fam, int native, int tmp_a, uint64_t res_si
   svp_prepare(mod, ppol, b);
   snap_t sp;
   snap_take(&sp, ppol, bytes_of_svp_ppol(mod));
-  svp_apply_dft(mod, dft, res_size, ppol, A.p, a_size, A.sl);
+  svp_apply_dft(mod, dft, dsize, ppol, A.p, a_size, A.sl);
   if (snap_cmp_free(&sp) >= 0) viol("snapshot", "svp_apply_dft modified the prepared polynomial");
-  if (tmp_a)
-    vec_znx_idft_tmp_a(mod, big, res_size, dft, res_size);
+  if (tmp_a == 1)
+    vec_znx_idft_tmp_a(mod, big, res_size, dft, dsize);
+  else if (tmp_a == 2)
+    vec_znx_idft(mod, (VEC_ZNX_BIG*)dft, res_size, dft, dsize, tmp);  // rows >= dsize of the buffer still hold the pre-fill
   else
-    vec_znx_idft(mod, big, res_size, dft, res_size, tmp);
+    vec_znx_idft(mod, big, res_size, dft, dsize, tmp);
   i128* exact = malloc(N * 16);
-  const int64_t* out = (const int64_t*)big;
+  const int64_t* out = tmp_a == 2 ? (const int64_t*)dft : (const int64_t*)big;
+  cntf("idft_variant:%s%s", 1, idn[tmp_a], short_dft ? ",short-dft" : "");
   for (uint64_t l = 0; l < res_size; l++) {
     if (l < a_size)
       check_product(tmp_a ? "svp+idft_tmp_a" : "svp+idft", N, zvec_limb(&A, l), b, out + l * N, exact);
@@ -364,6 +373,65 @@ static void greedy_case(uint64_t N, int native, unsigned rep) {
   case_end(1);
 }
 
+// module lifecycles: several modules of equal and different dimensions are created and deleted in a random order
+// (not stack-like); every product through a module that is still alive must stay correct whatever happened to the others
+static void lifecycle_case(int native, unsigned rep) {
+  if (!case_begin(native ? "module-lifecycle|create/delete interleaved" : "module-lifecycle|create/delete interleaved,generic", "rep=%u", rep)) return;
+  rng_t* r = crng();
+  enum { SLOTS = 6 };
+  MODULE* m[SLOTS] = {0};
+  uint64_t dim[SLOTS] = {0};
+  static const uint64_t DN[] = {4, 8, 16, 64, 128, 1024, 4096, 8192};
+  // two dimensions dominate so that equal-dimension modules coexist
+  const uint64_t d1 = DN[rng_u64(r) % ARRAY_LEN(DN)], d2 = DN[rng_u64(r) % ARRAY_LEN(DN)];
+  int saved = g_dispatch_native;
+  set_dispatch(native);
+  uint64_t products = 0, events = 0;
+  for (int step = 0; step < 40; step++) {
+    const int s = (int)(rng_u64(r) % SLOTS);
+    const unsigned act = (unsigned)(rng_u64(r) % 8);
+    if (!m[s]) {
+      dim[s] = act < 4 ? d1 : (act < 7 ? d2 : DN[rng_u64(r) % ARRAY_LEN(DN)]);
+      m[s] = new_module_info(dim[s], FFT64);
+      events++;
+    } else if (act < 3) {
+      delete_module_info(m[s]);
+      m[s] = 0;
+      events++;
+    }
+    // a product through every module that is alive (small operands: the result is exact)
+    for (int k = 0; k < SLOTS; k++) {
+      if (!m[k] || (rng_u64(r) & 1)) continue;
+      const uint64_t N = dim[k];
+      int64_t* a = malloc(N * 8);
+      int64_t* b = malloc(N * 8);
+      int64_t* res = malloc(N * 8);
+      i128* exact = malloc(N * 16);
+      uint8_t* tmp = malloc(znx_small_single_product_tmp_bytes(m[k]) + 64);
+      for (uint64_t i = 0; i < N; i++) {
+        a[i] = rng_range(r, -100000, 100000);
+        b[i] = rng_range(r, -3, 3);
+      }
+      znx_small_single_product(m[k], res, a, b, tmp);
+      negacyclic_exact(N, a, b, exact);
+      for (uint64_t i = 0; i < N; i++)
+        if ((i128)res[i] != exact[i]) {
+          viol("oracle", "product through a live module (N=%" PRIu64 ", slot %d) wrong after %" PRIu64 " create/delete events of other modules: coeff %" PRIu64 " got %" PRId64 " exact %" PRId64, N, k, events, i, res[i], (int64_t)exact[i]);
+          break;
+        }
+      products++;
+      free(a); free(b); free(res); free(exact); free(tmp);
+    }
+  }
+  for (int k = 0; k < SLOTS; k++)
+    if (m[k]) delete_module_info(m[k]);
+  set_dispatch(saved);
+  cnt("lifecycle_products", products);
+  cnt("lifecycle_events", events);
+  sample("%" PRIu64 " create/delete events on 6 slots (dimensions %" PRIu64 ", %" PRIu64 ", others), %" PRIu64 " exact products through the live modules", events, d1, d2, products);
+  case_end(products > 0);
+}
+
 void run_C01(void) {
   const int th = G.thorough;
   if (negacyclic_selfcheck(G.seed)) harness_fail("oracle self-check failed (NTT oracle vs schoolbook)");
@@ -385,15 +453,19 @@ void run_C01(void) {
           }
           svp_case(N, fam, native, (int)(ctr & 1), rs, as, ctr % 4, rep);
           if (rep == 0 && N <= 4096) svp_case(N, fam, native, (int)((ctr + 1) & 1), as, rs, (ctr + 1) % 4, rep);
+          // the in-place inverse DFT and DFT vectors shorter than the output (zero rows produced by the inverse DFT)
+          if (rep <= 1) svp_case(N, fam, native, (rep ? 2 : (int)(ctr % 3)) | 4, N >= 16384 && !th ? 2 : 1 + (ctr % 4), N >= 16384 && !th ? 1 : (ctr / 4) % 4, ctr % 4, rep + 50);
         }
     if (N <= (th ? 4096u : 256u))
       for (int native = 1; native >= 0; native--)
         for (unsigned rep = 0; rep < (th ? 8u : 1u); rep++) greedy_case(N, native, rep);
   }
+  for (int native = 1; native >= 0; native--)
+    for (unsigned rep = 0; rep < (th ? 400u : 24u); rep++) lifecycle_case(native, rep);
   // full (res, a) box on small N for the svp path, both idft variants and both dispatches
   static const uint64_t bN[] = {2, 4, 8, 16, 64};
   for (size_t ni = 0; ni < ARRAY_LEN(bN); ni++)
     for (uint64_t rs = 0; rs <= 4; rs++)
       for (uint64_t as = 0; as <= 4; as++)
-        for (int v = 0; v < 4; v++) svp_case(bN[ni], (int)((rs + as + ni) % NFAM), v & 1, v >> 1, rs, as, (unsigned)(rs + as) % 4, 100);
+        for (int v = 0; v < 12; v++) svp_case(bN[ni], (int)((rs + as + ni) % NFAM), v & 1, (v >> 1) % 3 | (v >= 6 ? 4 : 0), rs, as, (unsigned)(rs + as) % 4, 100);
 }
